@@ -312,7 +312,17 @@ class Gen:
                 times = [0.0] + ts + [1.0]
             if d_lit < 4:
                 return dict(k="const", d=d, v=val(), style=st)
-            return dict(k="interp", d=d, values=values, times=times, style=st)
+            w = dict(k="interp", d=d, values=values, times=times, style=st)
+            # optional arguments at non-default values: the interpolator and its keyword arguments
+            rr = r.random()
+            if rr < 0.3:
+                w["interp"] = "interp1d"
+                kinds_ok = ["linear", "nearest", "slinear"] + (["quadratic"] if n >= 3 else []) + (["cubic"] if n >= 4 else [])
+                if r.random() < 0.6:
+                    w["ikw"] = {"kind": r.choice(kinds_ok)}
+            elif rr < 0.36:
+                w["interp"] = "PchipInterpolator"  # the default, given explicitly
+            return w
         d1 = r.randint(1, d_lit - 1)
         return dict(k="composite", parts=[self.wf(ch, d1, is_amp, False), self.wf(ch, d_lit - d1, is_amp, False)])
 
